@@ -31,7 +31,9 @@ REQS = [
 ]
 
 
-N_VARIANTS = 10
+N_VARIANTS = 12     # variant 10 = the source of variant 5 delivered by re-filling the BASE request's array object in place;
+                    # variant 11 = measurement point at the origin (no re-centring product: the spectral arrays reach the FFT layer
+                    # in their STORAGE precision)
 
 
 def build_request(i, prec=None, variant=0):
@@ -55,6 +57,8 @@ def build_request(i, prec=None, variant=0):
         kw["halo"] = 40.0
     elif variant == 8:
         kw["domain"] = (200.0, 90.0)
+    elif variant == 11:
+        kw["meas_pt"] = (0.0, 0.0)
     elif variant == 9:
         u, v, Kx, Ky, Kz = kw["profiles"]
         kw["profiles"] = (1.3 * u, 0.7 * v, Kx, 1.5 * Ky, Kz)
@@ -106,7 +110,16 @@ for op in hist:
     if op[0] == "T":
         config.NUM_THREADS = op[1]
     elif op[0] == "S":
-        kw = request(op[1], op[2] if len(op) > 2 else None, op[3] if len(op) > 3 else 0)
+        variant = op[3] if len(op) > 3 else 0
+        saved = None
+        if variant == 10:
+            # a caller that keeps ONE work array and re-fills it in place between solves (a time series of surface fluxes):
+            # the solve must see the array's current VALUES, whatever it remembers about the object
+            kw = request(op[1], op[2] if len(op) > 2 else None, 0)
+            saved = kw["srf_flx"].copy()
+            kw["srf_flx"][...] = C12.build_request(op[1], op[2] if len(op) > 2 else None, 5)["srf_flx"]
+        else:
+            kw = request(op[1], op[2] if len(op) > 2 else None, variant)
         try:
             grid, conc, flx = steady_state_transport_solver(**kw)
             a = np.ascontiguousarray(np.asarray(conc)); b = np.ascontiguousarray(np.asarray(flx))
@@ -116,6 +129,8 @@ for op in hist:
         except Exception as e:
             rec["error"] = type(e).__name__ + ": " + str(e)[:200]
             rec["sha"] = "error"
+        if saved is not None:
+            kw["srf_flx"][...] = saved
     elif op[0] == "P":
         # two solves of the same shape and precision IN FLIGHT AT ONCE (two Python threads): a solve must be re-entrant
         import threading
@@ -215,7 +230,8 @@ def gen_history(rng, length):
 
 def op_key(op):
     """(request shape, precision, variant) of a solve op"""
-    return (op[1], (op[2] if len(op) > 2 and op[2] else REQS[op[1]]["prec"]), (op[3] if len(op) > 3 else 0))
+    v = op[3] if len(op) > 3 else 0
+    return (op[1], (op[2] if len(op) > 2 and op[2] else REQS[op[1]]["prec"]), 5 if v == 10 else v)
 
 
 def fresh_reference(keys=(), cache={}):
@@ -312,12 +328,17 @@ def run(rng, tier, deep):
     hists.append([["T", 4], ["S", 0], ["T", 1], ["S", 0], ["Z"], ["S", 0], ["T", 8], ["S", 1], ["S", 1], ["W"], ["S", 1]])
     # one-argument-apart neighbours, both orders, for a numeric dispersion, a numeric footprint and an analytic request
     for i in (0, 1) if tier == "quick" else (0, 1, 2, 4):
-        vs = [int(v) for v in rng.permutation(np.arange(1, N_VARIANTS))[: 4 if tier == "quick" else N_VARIANTS]]
+        vs = [10] + [int(v) for v in rng.permutation(np.arange(1, 10))[: 3 if tier == "quick" else 9]]
         h = [["S", i, None, 0]]
         for v in vs:
             h += [["S", i, None, v], ["S", i, None, 0]]
         hists.append(h)
     hists.append([["S", 6], ["S", 0], ["T", 2], ["S", 6], ["S", 7], ["Z"], ["S", 6], ["S", 7], ["S", 6, "single"], ["S", 6]])
+    # storage precision reaching the FFT layer (dispersion mode, measurement point at the origin), then the other precision on the
+    # same grid: nothing the FFT layer keeps may depend on the first caller's element type
+    for i in (0, 4) if tier == "quick" else (0, 2, 4, 6):
+        hists.append([["S", i, "single", 11], ["S", i, "double", 0], ["S", i, "double", 11], ["S", i, "single", 0], ["S", i, "single", 11]])
+        hists.append([["S", i, "double", 11], ["S", i, "single", 11], ["S", i, "double", 11]])
     for i in (0, 1, 5) if tier == "quick" else range(len(REQS)):
         hists.append([["S", i, "single"], ["S", i, "double"], ["S", i, "single"], ["S", i, "double"]])
         hists.append([["S", i, "double"], ["S", i, "single"], ["S", i, "double"]])
@@ -326,7 +347,7 @@ def run(rng, tier, deep):
         # reproducible, so this never runs on a tree whose obligations all check)
         for i in (0, 1, 3, 4):
             for _ in range(3):
-                v1, v2 = int(rng.integers(N_VARIANTS)), int(rng.choice([3, 4, 5]))
+                v1, v2 = int(rng.integers(10)), int(rng.choice([3, 4, 5]))
                 hists.append([["T", int(rng.choice([1, 2]))], ["P", i, None, v1, v2], ["P", i, None, v2, v1], ["S", i, None, v1]])
     with ThreadPoolExecutor(max_workers=8) as ex:
         reals = list(ex.map(run_real, hists))
